@@ -2,10 +2,11 @@
 import Strengths.Driver.Units
 import Strengths.Driver.Grid
 import Strengths.Driver.Network
+import Strengths.Driver.Validation
 
 namespace Strengths.Driver
 
 def allOps : List (String × Handler) :=
-  unitsOps ++ gridOps ++ networkOps
+  unitsOps ++ gridOps ++ networkOps ++ validationOps
 
 end Strengths.Driver
